@@ -6,6 +6,7 @@ integer (mod n) picks the task to complete; an exhausted schedule picks 0.
 """
 import asyncio
 import logging
+import threading
 import warnings
 from concurrent.futures import Future, ThreadPoolExecutor
 
@@ -131,18 +132,27 @@ class ManualPool(ThreadPoolExecutor):
         return f
 
     def run(self, i):
+        """Runs pending task i to completion *on a thread of its own* (as a pool would: not the submitting thread, not
+        the event loop's thread) while the calling thread waits, so the interleaving stays the harness's choice."""
         f, fn, a, kw, path = self.pending.pop(i)
         self.running += 1
-        try:
-            r = fn(*a, **kw)
-        except BaseException as e:  # noqa
-            self.running -= 1
-            self.o.log.append(("done", path))
-            f.set_exception(e)
-        else:
-            self.running -= 1
-            self.o.log.append(("done", path))
+        box = []
+
+        def work():
+            try:
+                box.append((True, fn(*a, **kw)))
+            except BaseException as e:  # noqa
+                box.append((False, e))
+        th = threading.Thread(target=work, name="manual-pool-worker")
+        th.start()
+        th.join()
+        ok, r = box[0]
+        self.running -= 1
+        self.o.log.append(("done", path))
+        if ok:
             f.set_result(r)
+        else:
+            f.set_exception(r)
 
 
 def run_blocking(schema, req, world, executor_cls=None, extra=None, log=None):
@@ -153,7 +163,7 @@ def run_blocking(schema, req, world, executor_cls=None, extra=None, log=None):
     try:
         o.result = process_graphql_query(schema, req.get("document") or req["text"], variables=req["variables"],
                                          operation_name=req["operation_name"],
-                                         context=world, executor_cls=executor_cls or Executor, **(extra or {}))
+                                         context=world, root=H.root_for(schema), executor_cls=executor_cls or Executor, **(extra or {}))
     except Exception as e:  # noqa
         o.exc = e
     return o
@@ -171,7 +181,7 @@ def run_threadpool(schema, req, world, schedule, extra=None, log=None):
     rt._inner = pool
     try:
         fut = process_graphql_query(schema, req.get("document") or req["text"], variables=req["variables"],
-                                    operation_name=req["operation_name"], context=world, runtime=rt, **(extra or {}))
+                                    operation_name=req["operation_name"], context=world, root=H.root_for(schema), runtime=rt, **(extra or {}))
     except Exception as e:  # noqa
         o.exc = e
         return o
@@ -231,7 +241,7 @@ def run_asyncio(schema, req, world, schedule, in_thread, extra=None, log=None):
         try:
             aw = process_graphql_query(schema, req.get("document") or req["text"], variables=req["variables"],
                                        operation_name=req["operation_name"],
-                                       context=world, runtime=AsyncIORuntime(execute_blocking_functions_in_thread=in_thread),
+                                       context=world, root=H.root_for(schema), runtime=AsyncIORuntime(execute_blocking_functions_in_thread=in_thread),
                                        **(extra or {}))
         except Exception as e:  # noqa
             o.exc = e
